@@ -356,6 +356,98 @@ theorem const_add_keeps_jacobian (e : Env) (a c : OpTree) (hc : c.noCurrent = tr
       | slicers l => simp only [directBin] at h; cases h
       | ad b => cases hy
 
+/-! ### the hypotheses above are established by the code that constructs the inputs -/
+
+/-- `EnvWF` is a decidable condition on the input (the driver evaluates it on every case) -/
+theorem parse_eq_direct_dec (deriv : Bool) (e : Env) (hwf : envWFb e = true) (t : OpTree) :
+    parse deriv e t = direct deriv e t :=
+  parse_eq_direct deriv e ((envWFb_iff e).mp hwf) t
+
+/-- Every tree python builds — by the arithmetic overloads (also the reverse ones), unary minus, function
+    calls and `previous_timestep` / `previous_iteration` of sub-expressions, in any nesting — from operator
+    objects with private indices `-1` or stored ones (fresh variables and arrays have `-1`) has such indices:
+    the hypothesis `indexOk` of the shift theorems holds for everything constructible. -/
+theorem build_indexOk (p : PyExpr) (t : OpTree) (hp : p.leavesOk = true) (hb : build p = .ok (.tree t)) :
+    t.indexOk = true :=
+  build_indexOk' p (.tree t) hp hb
+
+/-- Hence `expr.previous_timestep(steps)` / `expr.previous_iteration(steps)` of ANY constructible expression,
+    whenever python builds it, contains no variable at the current time step and iterate … -/
+theorem built_prev_no_current (p : PyExpr) (steps : Nat) (t : OpTree) (hp : p.leavesOk = true) :
+    (build (.prevTime steps p) = .ok (.tree t) → t.noCurrent = true) ∧
+    (build (.prevIter steps p) = .ok (.tree t) → t.noCurrent = true) := by
+  constructor
+  · intro hb
+    simp only [build] at hb
+    cases hx : build p with
+    | error er => simp [hx] at hb
+    | ok bx =>
+      simp only [hx, bind_ok] at hb
+      cases bx with
+      | raw r => cases hb
+      | tree t0 =>
+        have h0 := build_indexOk p t0 hp hx
+        cases hs : shiftTime steps t0 with
+        | error er => simp [hs] at hb
+        | ok s =>
+          simp only [hs, bind_ok, pure_eq_ok, Except.ok.injEq, Built.tree.injEq] at hb
+          subst hb
+          exact shiftTime_no_current steps t0 s h0 hs
+  · intro hb
+    simp only [build] at hb
+    cases hx : build p with
+    | error er => simp [hx] at hb
+    | ok bx =>
+      simp only [hx, bind_ok] at hb
+      cases bx with
+      | raw r => cases hb
+      | tree t0 =>
+        have h0 := build_indexOk p t0 hp hx
+        cases hs : shiftIter steps t0 with
+        | error er => simp [hs] at hb
+        | ok s =>
+          simp only [hs, bind_ok, pure_eq_ok, Except.ok.injEq, Built.tree.injEq] at hb
+          subst hb
+          exact shiftIter_no_current steps t0 s h0 hs
+
+/-- … and so evaluates to an AdArray with an all-zero Jacobian (no hypothesis left but constructibility). -/
+theorem built_prev_zero_jacobian (e : Env) (p : PyExpr) (steps : Nat) (t : OpTree) (hp : p.leavesOk = true)
+    (hb : build (.prevTime steps p) = .ok (.tree t) ∨ build (.prevIter steps p) = .ok (.tree t)) (a : Ad)
+    (hev : evaluate true e t = .ok (.ad a)) : ∀ u ∈ a, u.g = zeros e.N := by
+  have hn : t.noCurrent = true := by
+    rcases hb with hb | hb
+    · exact (built_prev_no_current p steps t hp).1 hb
+    · exact (built_prev_no_current p steps t hp).2 hb
+  exact prev_zero_jacobian e t hn a hev
+
+/-! ### other entry points: `state=None`, `Operator.value_and_jacobian`, `Operator.value` -/
+
+/-- `state=None` means the values stored at iterate index 0 -/
+theorem state_none_is_iterate0 (deriv : Bool) (e : Env) (t : OpTree) (s : Vec) (h : e.iterVals[0]? = some s) :
+    evaluateOpt deriv e none t = evaluateOpt deriv e (some s) t := by
+  simp only [evaluateOpt, withState, h]
+
+/-- the deprecated `Operator.value_and_jacobian(equation_system, state)` (which wraps once more) returns
+    what `EquationSystem.evaluate(op, derivative=True, state)` returns; `Operator.value` is derivative=False -/
+theorem value_and_jacobian_eq_evaluate (e : Env) (state : Option Vec) (t : OpTree) :
+    valueAndJacobian e state t = evaluateOpt true e state t ∧ valueOnly e state t = evaluateOpt false e state t := by
+  refine ⟨?_, rfl⟩
+  simp only [valueAndJacobian, evaluateOpt]
+  cases hs : withState e state with
+  | error er => rfl
+  | ok e' =>
+    simp only [bind_ok]
+    cases hv : evaluate true e' t with
+    | error er => rfl
+    | ok w =>
+      simp only [bind_ok]
+      simp only [evaluate] at hv
+      cases hp : parse true e' t with
+      | error er => simp [hp] at hv
+      | ok v =>
+        simp only [hp, bind_ok] at hv
+        exact finish_idem e'.N v w hv
+
 /-! ### a python number / numpy array / scipy matrix as the LEFT operand -/
 
 /-- Value level: for a raw python operand `c` (number, array, matrix) and any data value `y`
@@ -497,6 +589,13 @@ example : (evaluate true env0 (.func2 (.diag (.mul .x .y) 3 (some (1/2))) v02 (.
       = some (.ad [⟨1, [4, 0, 0]⟩, ⟨27, [0, 0, 6]⟩]) := by decide +kernel
 example : (evaluate false env0 (.func2 (.diag (.mul .x .y) 3 (some (1/2))) v02 (.bin .mul v02 v02))).toOption
       = some (.vec [1, 27]) := by decide +kernel
+/-- the constructed-input theorems are not vacuous: `(2 - v).previous_timestep(2)` built from fresh objects -/
+example : envWFb env0 = true := by decide
+example : (PyExpr.bin .sub (.raw (.num 2)) (.tree v02)).leavesOk = true := by decide
+example : (build (.prevTime 2 (.bin .sub (.raw (.num 2)) (.tree v02)))).toOption.map (fun b => match b with | .tree t => some t | _ => none)
+      = some (some (.bin .sub (.leaf (.scalar 2)) (.leaf (.var [[0, 2]] false 1 (-1))))) := by decide +kernel
+example : (valueAndJacobian env0 none (.bin .mul v02 v02)).toOption = some (.ad [⟨1, [2, 0, 0]⟩, ⟨9, [0, 0, 6]⟩])
+    ∧ (valueOnly env0 (some [5, 5, 5]) (.bin .mul v02 v02)).toOption = some (.vec [25, 25]) := by decide +kernel
 example : v02.noCurrent = false ∧ (OpTree.leaf (.var [[0, 2]] false 0 (-1))).noCurrent = true := by decide
 
 end PorepyVerif.C02
